@@ -151,8 +151,9 @@ type Ctx interface {
 
 // Trace is the event list of one request.
 type Trace struct {
-	mu sync.Mutex
-	Ev []string
+	mu     sync.Mutex
+	Ev     []string
+	Thrown any // the value the last OpPanic threw
 }
 
 // Add appends an event.
@@ -253,7 +254,9 @@ func Run(s *Script, c Ctx, tr *Trace) {
 			tr.Add("  %s after-abort%s", s.Name, ab(c))
 		case OpPanic:
 			tr.Add("  %s panics", s.Name)
-			panic(&PanicValue{Label: o.S})
+			v := &PanicValue{Label: o.S}
+			tr.Thrown = v
+			panic(v)
 		case OpObserve:
 			tr.Add("  %s observes%s data={%s} errors=%d params={%s}", s.Name, ab(c), dataText(c.Data()), c.NumErrors(), paramsText(c.Params()))
 		case OpHTTPError:
